@@ -63,7 +63,11 @@ def _plain(draw, kind):
     lines = _break(draw, letters)
     # the file may end without a line break after its last line
     spec = {"kind": kind, "alphabet": alphabet, "letters": letters, "lines": lines,
-            "eof_newline": draw(st.sampled_from([True, True, False]))}
+            "eof_newline": draw(st.sampled_from([True, True, False])),
+            # free text of the header / comment lines: ordinary lower-case words, some of which contain the letters
+            # of another alphabet's keyword (inteRNAl, alteRNAtive, ...)
+            "words": draw(st.sampled_from(["some", "some", "internal fragment of", "alternative", "external journal entry",
+                                           "random", "protein-like", "dnase treated"]))}
     if kind == "ig":
         spec["circular"] = draw(st.booleans()) and n >= 3
         spec["comments"] = draw(st.integers(1, 3))
@@ -254,14 +258,15 @@ def check(spec, ctx):
         return
     if kind in ("fasta", "ig"):
         if kind == "fasta":
-            text = f"> some {spec['alphabet']} sequence\n" + "\n".join(spec["lines"]) + "\n"
+            text = f"> {spec.get('words', 'some')} {spec['alphabet']} sequence\n" + "\n".join(spec["lines"]) + "\n"
             if spec["blank_end"]:
                 text += "\n"
             if spec["second"]:
                 text += "> second DNA\nACGT\n"
             path = ctx.dir / "seq.fasta"
         else:
-            text = "".join(f"; comment {i} {spec['alphabet'] if i == 0 else ''}\n" for i in range(spec["comments"]))
+            text = "".join(f"; comment {i} {spec.get('words', '') + ' ' + spec['alphabet'] if i == 0 else ''}\n"
+                           for i in range(spec["comments"]))
             text += spec["title"] + "\n"
             lines = list(spec["lines"])
             lines[-1] += "2" if spec["circular"] else "1"
